@@ -585,8 +585,8 @@ def canon_boundary_elem(rng, g, resource=False):
 def gen_iface(rng, name, nfuncs, features, max_depth, max_params, imported, no_string_results, stats):
     """one interface.  Restrictions that keep the generated *Rust* compilable (each is a recorded
     finding of its own, see known_findings.jsonl C05 / README):
-      * imported: no fixed-length list of non-`Copy` elements in parameter position
-        (the generated lowering moves out of the array by index),
+      * (none for imported interfaces any more: fixed-length lists of non-`Copy` elements as import
+        parameters were repaired in /repo 83d25d5),
       * no_string_results: no string below a result (was needed for raw_strings worlds before /repo
         6e4603d; kept as an option, unused)."""
     g = witgen.Gen(rng, max_depth=max_depth, features=set(features))
@@ -598,18 +598,7 @@ def gen_iface(rng, name, nfuncs, features, max_depth, max_params, imported, no_s
         else: np = rng.randint(1, max_params)
         params = []
         for j in range(np):
-            if imported and "flist" in features:
-                g.features.discard("flist")
-                if rng.random() < 0.12:
-                    e = rng.choice(NUMERIC)
-                    if rng.random() < 0.3: e = f"list<{e}, 2>"
-                    t = f"list<{e}, {rng.choice([1, 2, 3, 5])}>"
-                    g.count("flist")
-                else:
-                    t = g.ty(rng.choice([0, 1, 2]), True)
-                g.features.add("flist")
-            else:
-                t = g.ty(rng.choice([0, 1, 2]), True)
+            t = g.ty(rng.choice([0, 1, 2]), True)
             if rng.random() < 0.15:
                 t = f"list<{canon_boundary_elem(rng, g, 'resource' in features and not imported)}>"
                 if rng.random() < 0.2: t = f"option<{t}>"
